@@ -234,20 +234,24 @@ CoreFamily(maxn) ==
 ----------------------------------------------------------------------------
 (* C08: one faulting operation x calling context, with an effect before the fault in the same
    form and probe forms after it. *)
-FaultKinds == {"NonProcedure", "ArityMany", "ArityFew", "ArityPrim", "UnboundRead", "UnboundAssign", "WrongType",
+FaultKinds == {"NonProcedure", "ArityMany", "ArityFew", "ArityPrim", "ArityLit0", "ArityLit1", "UnboundRead", "UnboundAssign", "WrongType",
                "IndexRange", "ImmutableVector", "DivByZero"}
 FaultExpr(k) ==
   CASE k = "NonProcedure"    -> App(Num(5), <<Num(1)>>)
     [] k = "ArityMany"       -> Call("one", <<Num(1), Num(2)>>)
     [] k = "ArityFew"        -> Call("one", <<>>)
     [] k = "ArityPrim"       -> Call("cons", <<Num(1)>>)
+    \* a lambda expression applied on the spot (the shape begin/let bodies expand to) to the wrong number of arguments:
+    \* its body - which has an effect - must not run
+    [] k = "ArityLit0"       -> App(Fn(<<>>, <<Set("s", Num(100)), Num(1)>>), <<Num(5)>>)
+    [] k = "ArityLit1"       -> App(Fn(<<"z">>, <<Set("s", Num(100)), Var("z")>>), <<>>)
     [] k = "UnboundRead"     -> Var("nope")
     [] k = "UnboundAssign"   -> Set("nope", Num(1))
     [] k = "WrongType"       -> Call("car", <<Num(5)>>)
     [] k = "IndexRange"      -> Call("vector-ref", <<Call("vector", <<Num(1), Num(2)>>), Num(2)>>)
     [] k = "ImmutableVector" -> Call("vector-set!", <<Quote([t |-> "vlit", xs |-> <<MkInt(1), MkInt(2)>>]), Num(0), Num(9)>>)
     [] k = "DivByZero"       -> Call("/", <<Num(1), Num(0)>>)
-ExpectedKind(k) == IF k \in {"ArityMany", "ArityFew", "ArityPrim"} THEN "Arity"
+ExpectedKind(k) == IF k \in {"ArityMany", "ArityFew", "ArityPrim", "ArityLit0", "ArityLit1"} THEN "Arity"
                    ELSE IF k \in {"UnboundRead", "UnboundAssign"} THEN "Unbound" ELSE k
 Bump == Set("s", Call("+", <<Var("s"), Num(1)>>))
 FaultContexts == {"direct", "nontail", "tail", "tailif", "tailsame", "selftail", "apply", "map", "foreach", "foldl", "operand", "derived", "nested2"}
